@@ -59,6 +59,7 @@ MODULES = [
     ("extra/rtlreader.py", "rtlreader"),
     ("streamer/decode.py", "decode"),
     ("decoder/__init__.py", "decoder"),
+    ("c_common.pyx", "c_common"),
 ]
 
 # names by which one module refers to another -> our namespace
@@ -86,7 +87,14 @@ CMPOPS = {ast.Eq: "pyEq", ast.NotEq: "pyNe", ast.Lt: "pyLt", ast.LtE: "pyLe", as
           ast.Is: "pyIs", ast.IsNot: "pyIsNot", ast.In: "pyIn", ast.NotIn: "pyNotIn"}
 BUILTINS = {("int", 1): "pyInt1", ("int", 2): "pyInt2", ("len", 1): "pyLen", ("abs", 1): "pyAbs", ("float", 1): "pyFloat",
             ("min", 2): "pyMin2", ("max", 2): "pyMax2", ("bin", 1): "pyBin", ("str", 1): "pyStr"}
-METHODS = {("zfill", 1): "pyZfill", ("upper", 0): "pyUpper", ("replace", 2): "pyReplace"}
+C_BUILTINS = {}
+C_BUILTINS.update({("conv_long", 1): "cConvLong", ("conv_int", 1): "cConvInt", ("conv_uchar", 1): "cConvUchar",
+                 ("conv_char", 1): "cConvChar", ("conv_ssize", 1): "cConvSsize", ("conv_double", 1): "cConvDouble",
+                 ("conv_bint", 1): "cConvBint", ("conv_str", 1): "cConvStr", ("conv_obj", 1): "cConvObj",
+                 ("cast_long", 1): "cCastLong", ("bytes", 1): "pyBytes", ("bytearray", 1): "pyBytearray",
+                 ("fabs", 1): "pyAbs", ("abs", 1): "pyAbs", ("cos", 1): "Ext.np_cos", ("acos", 1): "Ext.np_arccos",
+                 ("_mfloor", 1): "Ext.np_floor", ("c_floor", 1): "Ext.np_floor"})
+METHODS = {("encode", 0): "pyEncode", ("decode", 0): "pyDecode", ("zfill", 1): "pyZfill", ("upper", 0): "pyUpper", ("replace", 2): "pyReplace"}
 
 
 # libm / numpy scalar functions: evaluated in double precision by externals of Py/Ext.lean (exact transfer of the
@@ -166,6 +174,10 @@ def pure_literal(e, consts):
                                              for k, v in zip(e.keys, e.values))
     if isinstance(e, ast.Name) and e.id in consts:
         return ident(e.id)
+    if isinstance(e, ast.Call) and ast.unparse(e.func) == "conv_obj" and len(e.args) == 1:
+        return pure_literal(e.args[0], consts)
+    if isinstance(e, ast.Call) and ast.unparse(e.func) == "array.array" and len(e.args) == 2:
+        return pure_literal(e.args[1], consts)
     raise Unsupported("not literal data")
 
 
@@ -382,6 +394,12 @@ class FnTranslator:
         self.is_method = self.fi.cls is not None and self.func_alias is None
         counts, first_depth = {}, {}
         self.scan(body, 0, counts, first_depth)
+        if self.mc.ns == "c_common":
+            # `x = _x` views of the transliterated pyx: expanded before the mutability analysis
+            self.locals = set(counts) | set(argnames)
+            body = self.expand_aliases(body)
+            counts, first_depth = {}, {}
+            self.scan(body, 0, counts, first_depth)
         if self.is_method:
             counts[argnames[0]] = counts.get(argnames[0], 0) + 2   # the receiver is threaded through as a mutable value
             first_depth.setdefault(argnames[0], 0)
@@ -484,7 +502,8 @@ class FnTranslator:
         Only done when neither the alias nor a name in the path is assigned again in the rest of the block."""
         for k, s in enumerate(stmts):
             if not (isinstance(s, ast.Assign) and len(s.targets) == 1 and isinstance(s.targets[0], ast.Name)
-                    and isinstance(s.value, (ast.Subscript, ast.Attribute)) and self.rooted_local(s.value)):
+                    and isinstance(s.value, (ast.Subscript, ast.Attribute, ast.Name)) and self.rooted_local(s.value)
+                    and not (isinstance(s.value, ast.Name) and s.value.id == s.targets[0].id)):
                 continue
             alias, path = s.targets[0].id, s.value
             rest = stmts[k + 1:]
@@ -888,6 +907,8 @@ class FnTranslator:
         if isinstance(e, ast.Name):
             if e.id in self.locals:
                 return ident(e.id), True
+            if self.mc.ns == "c_common" and e.id == "pi":
+                return "Ext.np_pi", True
             if e.id in self.mc.consts:
                 self.const_deps.add((self.mc.ns, e.id))
                 return "Gen.%s.%s" % (self.mc.ns, ident(e.id)), True
@@ -1050,6 +1071,11 @@ class FnTranslator:
             return "%s %s" % (self.func_alias[1], " ".join(self.val(a) for a in e.args))
         if ast.unparse(f) == "np.array" and len(e.args) == 1 and not e.keywords:
             return "pyList %s" % self.val(e.args[0])   # arrays and lists are one kind of value in the model
+        if self.mc.ns == "c_common" and isinstance(f, ast.Name) and (f.id, len(e.args)) in C_BUILTINS and not e.keywords \
+                and f.id not in self.locals:
+            return "%s %s" % (C_BUILTINS[(f.id, len(e.args))], " ".join(self.val(a) for a in e.args))
+        if self.mc.ns == "c_common" and ast.unparse(f) == "array.array" and len(e.args) == 2 and not e.keywords:
+            return "pyList %s" % self.val(e.args[1])    # array('l', L): a list of (small) integers in the model
         lib = LIBCALLS.get((ast.unparse(f), len(e.args)))
         if lib is not None and not e.keywords:
             return "%s %s" % (lib, " ".join(self.val(a) for a in e.args))
@@ -1182,6 +1208,11 @@ class FnTranslator:
 def load_module(repo, relpath, ns):
     path = os.path.join(repo, "src", "pyModeS", relpath)
     src = open(path).read()
+    if relpath.endswith(".pyx"):
+        # Cython is not available: the text is first transliterated to Python with explicit C conversions
+        # (harness/pyx_translit.py, validated on every C15 run against the shipped binary)
+        import pyx_translit
+        src = pyx_translit.translit(src)
     tree = ast.parse(src)
     mc = ModuleCtx(ns, tree, "src/pyModeS/" + relpath)
     mc.sha = hashlib.sha256(src.encode()).hexdigest()[:16]
@@ -1225,6 +1256,8 @@ def load_module(repo, relpath, ns):
             if inner and len(node.args.args) == 1 and isinstance(node.body[-1], ast.Return) and \
                     isinstance(node.body[-1].value, ast.Name) and node.body[-1].value.id == inner[0].name:
                 mc.decorators[node.name] = (inner[0], node.args.args[0].arg)
+                continue
+            if ns == "c_common" and node.name in ("c_floor", "abs"):
                 continue
             argnames = [a.arg for a in node.args.args]
             nd = len(node.args.defaults)
